@@ -86,12 +86,16 @@ class Ctx:
                 if match_known(known, self.prop, v) is None]
 
     def finish(self, self_test=None):
-        for rid, r in self.rules.items():
-            if r['instances'] < r['floor']:
-                raise AnalysisError(
-                    'rule %s matched %d instances, floor is %d (the rule '
-                    'would pass vacuously)' % (rid, r['instances'],
-                                               r['floor']))
+        if not self.violations:
+            # a floor shortfall next to a reported violation is explained by
+            # the violation (the construct is gone); alone it means the rule
+            # no longer binds to the code and would pass vacuously
+            for rid, r in self.rules.items():
+                if r['instances'] < r['floor']:
+                    raise AnalysisError(
+                        'rule %s matched %d instances, floor is %d (the '
+                        'rule would pass vacuously)' % (
+                            rid, r['instances'], r['floor']))
         known = load_known()
         new = []
         known_hits = []
